@@ -1,4 +1,5 @@
 import MirVerif.Model.DupRestore
+import MirVerif.Lemmas.DupRestoreWfCheck
 /-!
 Line-protocol driver for property C16 (exe `mirdrv_c16`).
 
@@ -10,6 +11,7 @@ Input (stdin), one command per line:
   N2R <rdn>*   /   R2R <rdn>*          members of name2rdn_tab / reg2rdn_tab
   I @<id> <name> d=<@id|-> n=<nops> <op>*   an instruction; appended to func->insns (W) in order
   LR <@id|-> <@id|-> <@id|-> <@id|->   label label2 orig_label orig_label2 of the next lref
+  WF                                   evaluate `wfCheck` (hypothesis of the C16 theorems) on the state
   DUP | RESTORE                        run the model function
   E <edit…>                            position-based edit of the working copy (see `runEdit`)
   DUMP                                 print the canonical description of the current state
@@ -248,6 +250,7 @@ def step (st : St) (ws : List String) : St × List String :=
   | ["LR", a, b, c, d] =>
     ({ st with s := { st.s with func := { st.s.func with
         lrefs := st.s.func.lrefs ++ [⟨parsePtr a, parsePtr b, parsePtr c, parsePtr d⟩] } } }, [])
+  | ["WF"] => (st, [s!"WF {if wfCheck st.s then 1 else 0}"])
   | ["DUP"] => ({ st with s := duplicate st.s, mark := st.s.next }, [])
   | ["RESTORE"] => ({ st with s := restore st.s }, [])
   | "E" :: e => (runEdit st e, [])
